@@ -20,6 +20,7 @@ META = dict(
     note="for-all over 2^128 secrets is not enumerable: coverage is the corpus (every boundary the code or the spec "
     "distinguishes); reference SRP and hashlib trusted; PAD convention as stated in the property anchors",
     design_ref="DESIGN.md §4 C02",
+    debug_pass="thorough",
     rule="a case = one exchange (code, salt, a, b) or one (exchange, flipped bit) or one (code_i, code_j) pair; distinct = distinct inputs; "
     "non-trivial = reference accepts the honest exchange",
     assumptions=["reference SRP (vt/ref/srp.py) is correct: validated against RFC 5054 appendix B in selftest", "hashlib SHA-512 correct"],
@@ -218,6 +219,17 @@ def case_interleaved(p):
     return out
 
 
+def case_api(p):
+    """The exchange as the transports run it (c03's API leg under this property's reading): every attempt's proof is computed from the salt and B
+    of the exchange the accessory is in NOW - after a link loss and automatic retry, after a wrong code, for every accepted spelling of the code."""
+    from vt.props import c03_api
+
+    q = dict(p)
+    v = c03_api.case_history(q)
+    p["_trace"] = q.get("_trace", [])
+    return v
+
+
 def case_protocol(p):
     """The *use* of the SRP values in pair-setup (K into HKDF, proofs into M3/M4): one honest M1..M6 run of the real generators on a mined
     exchange against the reference accessory (c03's case), in both decode styles; K, S, ... enter the protocol as bytes and an int round
@@ -231,7 +243,7 @@ def case_protocol(p):
     return [("protocol:" + sig, det) for sig, det in v]
 
 
-CASES = {"exchange": case_exchange, "wrongcode": case_wrongcode, "constants": case_constants, "protocol": case_protocol, "interleaved": case_interleaved}
+CASES = {"exchange": case_exchange, "wrongcode": case_wrongcode, "constants": case_constants, "protocol": case_protocol, "interleaved": case_interleaved, "api": case_api}
 
 
 def _work(item, seed, tier):
@@ -240,6 +252,7 @@ def _work(item, seed, tier):
     v = CASES[name](p)
     if name == "interleaved":
         acc.extra["interleavings_of_two_exchanges"] += p.pop("_n", 0)
+    p.pop("_trace", None)
     sym = [name] + ([f"lead0:{p['target']}"] if p.get("target") else []) + (["flips"] if p.get("flips") else [])
     acc.case(key=(name, core.jsonable(p)), outcome=f"{name}:{'ok' if not v else v[0][0]}", sample={"case": name, "params": p}, symbols=sym)
     if name == "exchange" and p.get("flips"):
@@ -272,6 +285,10 @@ def run(ctx):
         mk = lambda m: {"code": m["code"], "salt": bytes.fromhex(m["salt"]), "a": m["a"], "b": m["b"]}  # noqa: E731
         for k in range(12):
             work.append(("interleaved", {"exchanges": [mk(x), mk(y)], "part": [k, 12]}))
+    from vt.props import c03_api
+
+    for h in c03_api.histories(ctx.tier, seed):
+        work.append(("api", dict(h, seed=seed)))
     codes = ["000-00-000", "111-22-333", "999-99-999", "031-45-154"] + [
         f"{int.from_bytes(det_bytes(seed, f'code{i}', 4), 'big') % 10**8:08d}" for i in range(2 if quick else 8)
     ]
